@@ -599,6 +599,12 @@ def part_accepted_compiles(chk, thorough):
                 ("Into", "#[into(ref, ref_mut)] struct S($d);"), ("Into", "#[into(ref)] struct S(Box<$d>, $t1);"), ("From", "struct S(Box<$d>);"), ("Deref", "struct S(Box<$d>);"),
                 ("AsRef", "struct S<T>(#[as_ref(T)] $tp);"), ("AsMut", "struct S<T>(#[as_mut(T)] $tp);"), ("AsRef", "struct S<T>(#[as_ref(Vec<T>)] Vec<$tp>);"),
                 ("From", "#[from(Vec<$t1>)] struct S(Vec<%s>);" % _C1), ("Into", "#[into(Vec<$t1>)] struct S(Vec<%s>);" % _C1), ("AsRef", "#[as_ref(Vec<$t1>)] struct S(Vec<%s>);" % _C1),
+                # ... a fragment in the ATTRIBUTE that equals the field's type: the direct form, usable for every T
+                ("AsRef", "struct S<T>(#[as_ref($tp)] $tp); #[allow(dead_code)] fn _use(s: &S<u8>) -> &u8 { s.as_ref() }"),
+                ("AsMut", "struct S<T>(#[as_mut($tp)] $tp); #[allow(dead_code)] fn _use(s: &mut S<u8>) -> &mut u8 { s.as_mut() }"),
+                ("AsRef", "#[as_ref(Vec<$tp>)] struct S<T>(Vec<$tp>); #[allow(dead_code)] fn _use(s: &S<u8>) -> &Vec<u8> { s.as_ref() }"),
+                ("AsRef", "struct S<T>(#[as_ref($tp)] T); #[allow(dead_code)] fn _use(s: &S<u8>) -> &u8 { s.as_ref() }"),
+                ("From", "#[from($tp)] struct S<T>($tp); #[allow(dead_code)] fn _use() -> S<u8> { S::from(1u8) }"),
                 ("Display", "#[display(\"{} {}\", $e, 2 * $e)] struct S;"), ("Debug", "#[debug(\"{} {a}\", $e, a = -$e)] struct S;"), ("Display", "enum S { #[display(\"{}\", $e)] A, #[display(\"{}\", 7 - $e)] B }"),
                 ("TryFrom", "#[try_from(repr)] #[repr(u8)] enum S { A = $e, B = 2 * $e }"), ("TryFrom", "#[try_from(repr)] enum S { A = $e, B, Cc = 7 - $e }"), ("From", "struct S([u8; $e]);"),
                 ] + [(d, it) for it in ("struct S([u8; 2 * $e]);", "struct S { a: [u8; 7 - $e], b: u8 }", "enum S { A([u8; 2 * $e]), B }", "struct S(H<(), { 2 * $e }>);")
